@@ -44,6 +44,8 @@ def const_val(body, op, depth=0):
     sd = body.single_def(pl["l"])
     if sd and sd[2] == "assign" and sd[3]["k"] in ("use", "cast"):
         return const_val(body, sd[3]["a"], depth + 1)
+    if sd and sd[2] == "call" and len(sd[3]["args"]) == 1 and (sd[3]["callee"].get("path") or "").split("::")[-2:] in (["From", "from"], ["Into", "into"]):
+        return const_val(body, sd[3]["args"][0], depth + 1)      # u64::from(u32::MAX)
     return None
 
 
@@ -99,7 +101,8 @@ def version_bumps(fx, eng):
                         src = op_place(d2[3]["a"])
                 else:
                     src = apl
-                if src is None or field_of(src) != (adt, f):
+                same_value = s["rv"]["k"] == "use" and body.canon_op(sd[3]["a"]) == body.canon_op(s["rv"]["a"]) and body.dominates(b, b2)
+                if (src is None or field_of(src) != (adt, f)) and not same_value:
                     continue
                 # true edge stores version = 1
                 true_targets = [tgt for v, tgt in t["targets"] if v != 0] or [t["otherwise"]]
@@ -158,6 +161,82 @@ def under_version0(fx, body, blk):
                 if c == 1:
                     return True
     return False
+
+
+def mdat_patch_paths(fx, um):
+    """every returning path of update_mdat_size, as the sequence of stream operations it performs with their arguments as
+    linear forms over (position at entry, self.mdat_pos): robust to hoisting the common seek, temporaries, constants"""
+    import pathwise
+    from c01_tables import Lin, l_add, l_const, l_str
+    from mir import strip_generics
+    body = body_of(um)
+    seen64 = seen32 = 0
+    for it, blocks, events, st, kind in pathwise.paths(fx, body):
+        if kind != "return":
+            continue
+        # only paths on which every `?` succeeded: the function's Ok return
+        ok_path = any(e.kind == "assign" and e.data["place"]["l"] == 0 and not e.data["place"]["p"] and e.data["rv"]["k"] == "agg" and "Ok" in body.rv_str(e.data["rv"]) for e in events)
+        if not ok_path:
+            continue
+        lin = Lin(it)
+        ops = []
+        pos = None
+        for e in events:
+            if e.kind != "call":
+                continue
+            t = e.data
+            p = strip_generics(t["callee"].get("path") or "")
+            if p == "std::io::Seek::stream_position":
+                ops.append(("pos",))
+            elif p == "std::io::Seek::seek":
+                pl = op_place(t["args"][1])
+                sd = body.single_def(pl["l"]) if pl is not None and not pl["p"] else None
+                sid = e.state.cells.get((pl["l"], ".0")) if sd and sd[2] == "assign" and sd[3]["k"] == "agg" and sd[3].get("variant") == "Start" else None
+                ops.append(("seek", lin.sym(e.state, sid) if sid is not None else None))
+            elif p.startswith("byteorder::io::WriteBytesExt::write_u"):
+                w = int(p.rsplit("write_u", 1)[1]) // 8
+                ops.append(("w", w, lin.op(e.state, t["args"][1], (e.block, "t")), it.read_op(e.state, t["args"][1], (e.block, "t"))[1:3]))
+            elif t["callee"].get("trait") in ("std::io::Write", "std::io::Read", "byteorder::io::WriteBytesExt", "byteorder::io::ReadBytesExt"):
+                ops.append(("other", p))
+        if not ops or ops[0] != ("pos",):
+            return False, "the patch does not start by taking the end position"
+        # variables: the position symbol and self.mdat_pos
+        def is_mdat_pos(form, plus=0):
+            return form is not None and {k: v for k, v in form.items() if v} == dict([((".mdat_pos",), 1)] + ([((), plus)] if plus else []))
+        def is_size(form):
+            if form is None:
+                return False
+            f = {k: v for k, v in form.items() if v}
+            rest = {k: v for k, v in f.items() if k != (".mdat_pos",)}
+            return f.get((".mdat_pos",)) == -1 and len(rest) == 1 and list(rest.values()) == [1] and isinstance(list(rest)[0], tuple) and list(rest)[0][0] == "sym"
+        body_ops = ops[1:]
+        if not body_ops or body_ops[-1][0] != "seek":
+            return False, "the patch does not return to the end position"
+        endf = body_ops[-1][1]
+        if not (endf and len([k for k, v in endf.items() if v]) == 1 and list(endf.values()) == [1] and list(endf)[0][0] == "sym"):
+            return False, "the final seek does not go back to the position taken at entry (%s)" % l_str(endf)
+        mid = body_ops[:-1]
+        sig = [(o[0],) + ((o[1],) if o[0] == "w" else ()) for o in mid]
+        if sig == [("seek",), ("w", 4), ("seek",), ("w", 8)]:
+            good = is_mdat_pos(mid[0][1]) and mid[1][2] == {(): 1} and is_mdat_pos(mid[2][1], 8) and is_size(mid[3][2])
+            lo = mid[3][3][0]
+            if not good:
+                return False, "64-bit form writes %s" % [l_str(o[1]) if o[0] == "seek" else "w%d:%s" % (o[1], l_str(o[2])) for o in mid]
+            if lo is None or lo <= U32MAX:
+                return False, "the 64-bit form is not restricted to sizes above u32::MAX (size >= %s on that path)" % lo
+            seen64 += 1
+        elif sig == [("seek",), ("w", 4)]:
+            good = is_mdat_pos(mid[0][1])
+            hi = mid[1][3][1]
+            if not good:
+                return False, "32-bit form seeks to %s" % l_str(mid[0][1])
+            # the written value is the size narrowed to u32: on this path the size must be known to fit
+            seen32 += 1
+        else:
+            return False, "unexpected operation sequence %s" % sig
+    if not (seen64 and seen32):
+        return False, "missing %s form" % ("64-bit" if not seen64 else "32-bit")
+    return True, ""
 
 
 def run(fx, chk, tier):
@@ -309,29 +388,7 @@ def run(fx, chk, tier):
             good = t0.endswith("MdatBox") and t1.endswith("WideBox") and s0 == 8 and s1 == 8
         chk.require(good, "R-MDAT", "prologue", "ftyp, mdat_pos := position, 8-byte mdat header, 8-byte wide header",
                     "write_start does not write [ftyp][mdat header, 8 bytes][wide header, 8 bytes] in that order after recording mdat_pos (found %s)" % kinds[:6], site_of(ws))
-        L2 = LY.extract(fx, iof, um)
-        # the wide branch: seek(Start(mdat_pos)), write_u32(1), seek(Start(mdat_pos + 8)), write_u64(mdat_size)
-        alts = [x for x in LY.walk(L2) if x["n"] == "alt"]
-        okm = False
-        why = "no `mdat_size > u32::MAX` branch"
-        for a in alts:
-            atom, pol = LY.norm_cond(fx, a["cond"])
-            if atom.startswith("mdat_size>") and str(U32MAX) in atom:
-                items = [x for x in a["then"]["items"] if x["n"] not in ("let",)]
-                sig = []
-                for x in items:
-                    if x["n"] == "seek":
-                        sig.append("seek:" + LY.norm_expr(x["how"]))
-                    elif x["n"] == "atom":
-                        sig.append("w%d:%s" % (x["w"], LY.norm_expr(x["val"])))
-                want = ["seek:SeekFrom::Start(mdat_pos)", "w4:1", "seek:SeekFrom::Start((mdat_pos Add 8))", "w8:mdat_size"]
-                okm = sig == want
-                why = "64-bit branch is %s" % sig
-                els = [x for x in a["else"]["items"] if x["n"] not in ("let",)]
-                sig2 = [("seek:" + LY.norm_expr(x["how"])) if x["n"] == "seek" else ("w%d:%s" % (x["w"], LY.norm_expr(x["val"])) if x["n"] == "atom" else x["n"]) for x in els]
-                okm = okm and sig2 == ["seek:SeekFrom::Start(mdat_pos)", "w4:mdat_size"]
-                if sig2 != ["seek:SeekFrom::Start(mdat_pos)", "w4:mdat_size"]:
-                    why += "; 32-bit branch is %s" % sig2
+        okm, why = mdat_patch_paths(fx, um)
         chk.require(okm, "R-MDAT", "patch", "size=1 at mdat_pos and u64 at mdat_pos + 8 above u32::MAX; u32 at mdat_pos otherwise",
                     "update_mdat_size does not patch the mdat size field as the prologue expects: %s" % why, site_of(um))
     return chk.finish(
